@@ -151,7 +151,7 @@ func headOf(raw []byte) *jmut.Node {
 }
 
 func runC09(c *Ctx) {
-	c.R.Rule("signed corpus invoices (1 or 2 signatures, header entries present before signing chosen per envelope) × post-signing history classes (none, +stamp/+link/+tag/+meta/+notes, signed entry removed or altered, uuid/digest replaced, document edited with and without recalculation, signature transplanted, signature order swapped, same header signed by another key) × key sets, presented to library Verify, `gobl verify` process, POST /verify and POST /bulk verify; non-trivial = the expected verdict of the history differs between at least two keys; distinct by (envelope, history, path, keys)")
+	c.R.Rule("signed corpus invoices, orders, deliveries and payments (1 or 2 signatures, header entries present before signing chosen per envelope) × post-signing history classes (none, +stamp/+link/+tag/+meta/+notes, signed entry removed or altered, uuid/digest replaced, document edited with and without recalculation, signature transplanted, signature order swapped, same header signed by another key) × key sets, presented to library Verify, `gobl verify` process, POST /verify and POST /bulk verify; non-trivial = the expected verdict of the history differs between at least two keys; distinct by (envelope, history, path, keys)")
 	c.R.Assume("expected verdict: every signature was made by one of the presented keys and the current header contains the header that signature covers (own comparison of uuid, dig, stamps, links, tags, meta, notes); the CLI/HTTP/bulk paths validate the envelope first, so their expected verdict also requires Envelope.Validate()==nil")
 	keys := []*dsig.PrivateKey{dsig.NewES256Key(), dsig.NewES256Key(), dsig.NewES256Key()}
 	// impostors: other key pairs that present the key id of signer 0 / signer 1
@@ -172,10 +172,27 @@ func runC09(c *Ctx) {
 		}
 		pubs = append(pubs, imp) // indexes 3 and 4
 	}
-	invs := corpus.Invoices()
-	nEnv := c.N(6, 60)
+	var invs []corpus.Item
+	var others []corpus.Item
+	for _, it := range corpus.Golden() {
+		switch it.Type {
+		case "bill/invoice":
+			invs = append(invs, it)
+		case "bill/order", "bill/delivery", "bill/payment":
+			others = append(others, it)
+		}
+	}
+	nEnv := c.N(8, 60)
 	rng := c.Rand(1)
 	rng.Shuffle(len(invs), func(i, j int) { invs[i], invs[j] = invs[j], invs[i] })
+	rng.Shuffle(len(others), func(i, j int) { others[i], others[j] = others[j], others[i] })
+	// the other billing document types take part from the start of the list
+	if len(others) > 3 {
+		others = others[:3]
+	}
+	if len(invs) > 2 {
+		invs = append(append(append([]corpus.Item{}, invs[:2]...), others...), invs[2:]...)
+	}
 
 	gbin := filepath.Join(ev.Root(), "bin", "gobl")
 	if _, err := os.Stat(gbin); err != nil {
@@ -250,6 +267,10 @@ func runC09(c *Ctx) {
 		if p, _ := Safely(func() { err = env.Sign(keys[1]) }); p == nil && err == nil {
 			rawB, _ = json.Marshal(env)
 			sigB = []c09sig{{0, hdrA}, {1, headOf(rawB)}}
+		}
+		c09headerAPI(c, it.Rel, "one-sig", rawA, []*dsig.PublicKey{pubs[0]})
+		if rawB != nil {
+			c09headerAPI(c, it.Rel, "two-sigs", rawB, []*dsig.PublicKey{pubs[0], pubs[1]})
 		}
 		cases = append(cases, c09histories(c, it.Rel, "one-sig", rawA, sigA, keys, transplantDonor)...)
 		if rawB != nil {
@@ -330,7 +351,7 @@ func runC09(c *Ctx) {
 	if crashed, what := server.Crashed(); crashed {
 		c.R.Set("server_crash", what)
 	}
-	c.Require("verifications:library", "verifications:cli", "verifications:http", "verifications:bulk", "history:doc-edited-stale", "history:doc-edited-invalid-stale")
+	c.Require("header_api_operations", "verifications:library", "verifications:cli", "verifications:http", "verifications:bulk", "history:doc-edited-stale", "history:doc-edited-invalid-stale")
 }
 
 func runWithTimeout(cmd *exec.Cmd, d time.Duration) error {
@@ -392,6 +413,91 @@ func c09judge(c *Ctx, cs *c09case, path string, ks []int, want, got bool, detail
 }
 
 // c09histories derives the post-signing histories of one signed envelope.
+// c09headerAPI changes the header of a signed envelope through the library's own
+// helpers (AddLink, AddStamp, tags, meta). The expected verdict is known from
+// what the operation is, not recomputed from the header it leaves behind:
+// adding an entry under a new key keeps every signed entry, so verification
+// keeps succeeding; replacing a signed entry makes it fail.
+func c09headerAPI(c *Ctx, file, base string, raw []byte, keys []*dsig.PublicKey) {
+	type op struct {
+		name   string
+		wantOK bool
+		do     func(e *gobl.Envelope) bool
+	}
+	ops := []op{
+		{"AddLink(new key, new url)", true, func(e *gobl.Envelope) bool {
+			e.Head.AddLink(&head.Link{Key: "verif-new", URL: "https://example.com/verif-new"})
+			return true
+		}},
+		{"AddLink(new key, url of a signed link)", true, func(e *gobl.Envelope) bool {
+			if len(e.Head.Links) == 0 || e.Head.Links[0] == nil {
+				return false
+			}
+			e.Head.AddLink(&head.Link{Key: "verif-same-url", URL: e.Head.Links[0].URL})
+			return true
+		}},
+		{"AddStamp(new provider, value of a signed stamp)", true, func(e *gobl.Envelope) bool {
+			if len(e.Head.Stamps) == 0 || e.Head.Stamps[0] == nil {
+				return false
+			}
+			e.Head.AddStamp(&head.Stamp{Provider: "verif-other-provider", Value: e.Head.Stamps[0].Value})
+			return true
+		}},
+		{"AddStamp(new provider)", true, func(e *gobl.Envelope) bool {
+			e.Head.AddStamp(&head.Stamp{Provider: "verif-new-provider", Value: "N-1"})
+			return true
+		}},
+		{"AddLink(signed key, other url)", false, func(e *gobl.Envelope) bool {
+			if len(e.Head.Links) == 0 || e.Head.Links[0] == nil {
+				return false
+			}
+			e.Head.AddLink(&head.Link{Key: e.Head.Links[0].Key, URL: "https://example.com/replaced"})
+			return true
+		}},
+		{"AddStamp(signed provider, other value)", false, func(e *gobl.Envelope) bool {
+			if len(e.Head.Stamps) == 0 || e.Head.Stamps[0] == nil {
+				return false
+			}
+			e.Head.AddStamp(&head.Stamp{Provider: e.Head.Stamps[0].Provider, Value: e.Head.Stamps[0].Value + "-replaced"})
+			return true
+		}},
+		{"tags and meta added", true, func(e *gobl.Envelope) bool {
+			e.Head.Tags = append(e.Head.Tags, "verif-tag")
+			if e.Head.Meta == nil {
+				e.Head.Meta = cbc.Meta{}
+			}
+			e.Head.Meta["verif-key"] = "v"
+			return true
+		}},
+		{"three links added in a row", true, func(e *gobl.Envelope) bool {
+			for k := 0; k < 3; k++ {
+				e.Head.AddLink(&head.Link{Key: cbc.Key(fmt.Sprintf("verif-l%d", k)), URL: fmt.Sprintf("https://example.com/l%d", k)})
+			}
+			return true
+		}},
+	}
+	for _, o := range ops {
+		env, err := gx.ParseEnvelope(raw)
+		if err != nil {
+			return
+		}
+		var applied bool
+		var verr error
+		if p, _ := Safely(func() {
+			if applied = o.do(env); applied {
+				verr = env.Verify(keys...)
+			}
+		}); p != nil || !applied {
+			continue
+		}
+		c.R.Count("header_api_operations", 1)
+		c.R.Case(true, ev.Hash(file, base, "api", o.name))
+		if (verr == nil) != o.wantOK {
+			c.R.Fail("header-api:"+strings.SplitN(o.name, "(", 2)[0]+":"+map[bool]string{true: "breaks-signed-entries", false: "replacement-unnoticed"}[o.wantOK], fmt.Sprintf("%s (%s): after %s on the signed envelope, Verify returns %v (expected success=%v)", file, base, o.name, verr, o.wantOK), map[string]any{"envelope": file, "base": base, "operation": o.name})
+		}
+	}
+}
+
 func c09histories(c *Ctx, file, base string, raw []byte, sigs []c09sig, keys []*dsig.PrivateKey, donor []byte) []*c09case {
 	var out []*c09case
 	add := func(name, class string, fn func(n *jmut.Node) bool) {
@@ -535,22 +641,23 @@ func c09histories(c *Ctx, file, base string, raw []byte, sigs []c09sig, keys []*
 	})
 	add("document edited, not recalculated", "doc-edited-stale", func(n *jmut.Node) bool {
 		doc := n.Get("doc")
-		lines := doc.Get("lines")
-		if lines == nil || len(lines.A) == 0 {
+		if lines := doc.Get("lines"); lines != nil && len(lines.A) > 0 && lines.A[0].Get("quantity") != nil {
+			lines.A[0].Set("quantity", jmut.S("77"))
+			return true
+		}
+		if doc.Get("code") == nil {
 			return false
 		}
-		lines.A[0].Set("quantity", jmut.S("77"))
+		doc.Set("code", jmut.S("EDITED-77")) // documents whose lines have no quantity (payments)
 		return true
 	})
 	add("document edited into an invalid one, not recalculated", "doc-edited-invalid-stale", func(n *jmut.Node) bool {
 		doc := n.Get("doc")
-		sup := doc.Get("supplier")
-		lines := doc.Get("lines")
-		if sup == nil || sup.K != jmut.Obj || lines == nil || len(lines.A) == 0 {
+		if doc.Get("code") == nil || doc.Get("type") == nil {
 			return false
 		}
-		lines.A[0].Set("quantity", jmut.S("77"))
-		sup.Set("name", jmut.S(""))
+		doc.Set("code", jmut.S("EDITED-77"))
+		doc.Set("type", jmut.S("zz-undefined-type")) // invalid in every billing document type
 		return true
 	})
 	// document edited and recalculated under the original signatures
@@ -558,8 +665,8 @@ func c09histories(c *Ctx, file, base string, raw []byte, sigs []c09sig, keys []*
 		n, err := jmut.Parse(raw)
 		if err == nil {
 			doc := n.Get("doc")
-			if lines := doc.Get("lines"); lines != nil && len(lines.A) > 0 {
-				lines.A[0].Set("quantity", jmut.S("77"))
+			if doc.Get("code") != nil {
+				doc.Set("code", jmut.S("EDITED-77"))
 				if env, err := gx.ParseEnvelope(n.Bytes()); err == nil {
 					var cerr error
 					if p, _ := Safely(func() { cerr = env.Calculate() }); p == nil && cerr == nil {
